@@ -33,7 +33,7 @@ package main
 //@   ensures value {C09}: implies(result1 == nil, mkbytes(elems(result0), off(result0), len(result0)) == daeadDec(mkbytes(elems(key), off(key), len(key)), mkbytes(elems(data), off(data), len(data)), noBytes))
 
 //@ func ReadKeyFromFile
-//@   props C09 C11
+//@   props C09 C11 C10
 //@   allocs Arr:Int
 //@   assigns envOps
 //@   sets havePersisted := havePersisted || result1 == nil
@@ -48,7 +48,7 @@ package main
 //@   ensures ops: envOps >= old(envOps)
 
 //@ func WriteKeyToFile
-//@   props C11
+//@   props C11 C10
 //@   allocs Arr:Int
 //@   assigns effects, envOps, fsWrites, fsKind, fsData, fsPerm
 //@   sets havePersisted := havePersisted || result == nil
@@ -61,7 +61,7 @@ package main
 //@   ensures directory-untouched {C11}: implies(old(fsKind)[filePath] == 2, result != nil && fsWrites == old(fsWrites) && fsKind == old(fsKind) && fsData == old(fsData))
 
 //@ func GenerateKey
-//@   props C11
+//@   props C11 C10
 //@   ensures length {C11}: implies(result1 == nil, len(result0) == 64)
 //@   ensures nil-on-error: implies(result1 != nil, result0 == nil)
 
